@@ -1,10 +1,62 @@
-(* Props/C12.v — symbolic evaluation commutes with numeric evaluation.  Statements only.
-   (The naturality theorems of Theory/Natural.v are added below when that file is part of the build.) *)
-From KV Require Import Model.All Bridge.Codegen.
+(* Props/C12.v — symbolic evaluation commutes with numeric evaluation.
+   map_mv h applies h to every stored coefficient.  For ANY map h that preserves the operations the
+   generators use (0, 1, +, *, -, unary minus) - in particular the evaluation of kingdon's polynomials
+   at ANY values in ANY commutative ring - substituting after operating is LITERALLY (same keys, same
+   order) operating after substituting, for any partition of the coefficients into symbols and numbers.
+   Statements only; proofs in Theory/Natural.v. *)
+From Coq Require Import Ring_theory.
+From KV Require Import Model.All Model.Composite Model.Poly Bridge.Codegen Theory.Sparse Theory.Poly Theory.Natural.
 Local Open Scope Z_scope.
 
-(* the generated functions are built from the kernels below only (regenerated from today's source):
-   their shape depends on the keys, never on coefficient values *)
+(* every product-type operator (any sign function, filter, key-out function) and the canonical re-sort *)
+Theorem C12_products_natural : forall (R S : Type) (OR : ops R) (OS : ops S) (h : R -> S), ops_hom OR OS h ->
+  forall A sfun filt kout (x y : mv R),
+  map_mv h (canon_sort A (codegen_product OR sfun filt kout x y))
+  = canon_sort A (codegen_product OS sfun filt kout (map_mv h x) (map_mv h y)).
+Proof. intros. rewrite nat_canon_sort. f_equal. apply nat_codegen_product. assumption. Qed.
+Print Assumptions C12_products_natural.
+
+Theorem C12_operators_natural : forall (R S : Type) (OR : ops R) (OS : ops S) (h : R -> S), ops_hom OR OS h ->
+  forall A (x y : mv R),
+  map_mv h (gp OR A x y) = gp OS A (map_mv h x) (map_mv h y) /\
+  map_mv h (op OR A x y) = op OS A (map_mv h x) (map_mv h y) /\
+  map_mv h (ip OR A x y) = ip OS A (map_mv h x) (map_mv h y) /\
+  map_mv h (rp OR A x y) = rp OS A (map_mv h x) (map_mv h y) /\
+  map_mv h (cp OR A x y) = cp OS A (map_mv h x) (map_mv h y) /\
+  map_mv h (add OR A x y) = add OS A (map_mv h x) (map_mv h y) /\
+  map_mv h (sub OR A x y) = sub OS A (map_mv h x) (map_mv h y) /\
+  map_mv h (neg OR A x) = neg OS A (map_mv h x) /\
+  map_mv h (reverse OR A x) = reverse OS A (map_mv h x) /\
+  map_mv h (hodge OR A x) = hodge OS A (map_mv h x) /\
+  map_mv h (sw OR A x y) = sw OS A (map_mv h x) (map_mv h y) /\
+  map_mv h (proj OR A x y) = proj OS A (map_mv h x) (map_mv h y) /\
+  map_mv h (normsq OR A x) = normsq OS A (map_mv h x).
+Proof.
+  intros R S OR OS h H A x y.
+  repeat split; [apply nat_gp | apply nat_op | apply nat_ip | apply nat_rp | apply nat_cp | apply nat_add | apply nat_sub
+                | apply nat_neg | apply nat_reverse | apply nat_hodge | apply nat_sw | apply nat_proj | apply nat_normsq]; exact H.
+Qed.
+Print Assumptions C12_operators_natural.
+
+(* evaluation of kingdon's polynomials IS such a map, for every commutative ring and valuation *)
+Theorem C12_evaluation_is_homomorphism : forall (R : Type) (R0 R1 : R) (Radd Rmul Rsub : R -> R -> R) (Ropp : R -> R),
+  ring_theory R0 R1 Radd Rmul Rsub Ropp (@eq R) -> forall rho : nat -> R,
+  ops_hom Pops (mkOps R Radd Rsub Rmul Ropp R0 R1) (peval R R0 R1 Radd Rmul Ropp rho).
+Proof. intros. apply peval_hom. assumption. Qed.
+Print Assumptions C12_evaluation_is_homomorphism.
+
+(* the automatic simplification drops a blade only if its coefficient is identically zero: dropping
+   the falsy coefficients does not change any coefficient after evaluation *)
+Theorem C12_filter_sound : forall (R : Type) (R0 R1 : R) (Radd Rmul Rsub : R -> R -> R) (Ropp : R -> R),
+  ring_theory R0 R1 Radd Rmul Rsub Ropp (@eq R) -> forall (rho : nat -> R) (X : mv poly),
+  NoDup (keys X) -> all_coeffs Inv X ->
+  Sparse.equiv R0 R1 Radd Rmul Rsub Ropp
+    (map_mv (peval R R0 R1 Radd Rmul Ropp rho) (filter_nz pzero X))
+    (map_mv (peval R R0 R1 Radd Rmul Ropp rho) X).
+Proof. intros. apply (filter_poly_equiv _ _ _ _ _ _ _ H); assumption. Qed.
+Print Assumptions C12_filter_sound.
+
+(* the kernels deciding the SHAPE of a generated function depend on keys only (regenerated from source) *)
 Theorem C12_kernels_value_independent : forall s kx ky,
   Gen.Codegen.term_positive s = Z.ltb 0 s /\ Gen.Codegen.keyout_default kx ky = Z.lxor kx ky.
 Proof. intros. split; reflexivity. Qed.
